@@ -59,6 +59,10 @@ struct Case {
     max_runs: usize,
     #[serde(default)]
     max_iter: u64,
+    /// seeded, L2: additionally fit with n_runs in {2, max_runs} for every budget 1..=ladder and
+    /// compare the cost of the returned centroids along the budgets (0 = off)
+    #[serde(default)]
+    ladder: usize,
 }
 
 #[derive(Clone, Copy, PartialEq, Debug)]
@@ -866,16 +870,24 @@ fn run_traj<F: Float, D: Distance<F>>(case: &Case, dist: D, met: Met, viols: &mu
             .collect()
     };
 
-    let mut prev_cost: Option<(usize, f64)> = None;
+    // Every budget is run with n_runs = 1, 2, 3: a Precomputed start makes every restart begin at
+    // the same centroids, so the result must be a state reached after exactly m updates whatever
+    // the restart count (the budget is per restart).
+    let mut prev_costs: [Option<(usize, f64)>; 4] = [None; 4];
     let mut pcache: PredCache = HashMap::new();
     for m in 1..=m_max {
+      for n_runs in 1..=3usize {
+        let prev_cost = &mut prev_costs[n_runs];
         cnt.add("fits", 1);
+        if n_runs > 1 {
+            cnt.add("trajectory_fits_with_restarts", 1);
+        }
         if nt {
             cnt.add("fits_nontrivial", 1);
         }
-        let at = json!({"budget": m});
+        let at = if n_runs == 1 { json!({"budget": m}) } else { json!({"budget": m, "n_runs": n_runs}) };
         let rng = Xoshiro256Plus::seed_from_u64(42);
-        let model = match fit_once(&env.data, k, KMeansInit::Precomputed(init_f.clone()), rng, dist.clone(), 1, m as u64, case.tol) {
+        let model = match fit_once(&env.data, k, KMeansInit::Precomputed(init_f.clone()), rng, dist.clone(), n_runs, m as u64, case.tol) {
             Ok(m) => m,
             Err((sig, what)) => {
                 viols.push(Violation::new(sig, what, env.cj(at)));
@@ -895,8 +907,8 @@ fn run_traj<F: Float, D: Distance<F>>(case: &Case, dist: D, met: Met, viols: &mu
                     viols.push(Violation::new(
                         "kmeans.fit.stopped_at_unexpected_iteration",
                         format!(
-                            "budget {}: returned centroids {:?} are what the reference reaches after {} updates, not after {} (tolerance {}, reference after {}: {:?})",
-                            m, obs.flat, j, m, case.tol, m, reach
+                            "budget {}, n_runs {}: returned centroids {:?} are what the reference reaches after {} updates, not after {} (tolerance {}, reference after {}: {:?})",
+                            m, n_runs, obs.flat, j, m, case.tol, m, reach
                         ),
                         env.cj(at.clone()),
                     ));
@@ -904,8 +916,9 @@ fn run_traj<F: Float, D: Distance<F>>(case: &Case, dist: D, met: Met, viols: &mu
                     viols.push(Violation::new(
                         "kmeans.fit.centroids_differ_from_reference_step",
                         format!(
-                            "budget {}: returned centroids {:?} are not reachable by {} m_k-means updates (mean of assigned points and previous position) from {:?}; reference: {:?} ({} admissible states)",
+                            "budget {}, n_runs {}: returned centroids {:?} are not reachable by {} m_k-means updates (mean of assigned points and previous position) from {:?}; reference: {:?} ({} admissible states)",
                             m,
+                            n_runs,
                             obs.flat,
                             m,
                             init64,
@@ -929,7 +942,7 @@ fn run_traj<F: Float, D: Distance<F>>(case: &Case, dist: D, met: Met, viols: &mu
             case.init_from_data,
             if known.is_empty() { None } else { Some(&known) },
             None,
-            m == 1 || m == m_max,
+            n_runs == 1 && (m == 1 || m == m_max),
             &mut pcache,
             viols,
             &mut cnt,
@@ -937,7 +950,7 @@ fn run_traj<F: Float, D: Distance<F>>(case: &Case, dist: D, met: Met, viols: &mu
         // ---- cost of the returned centroids never increases with the budget (theorem for L2)
         if ok && met == Met::L2 {
             let c = cost(met, &env.pts, &obs.flat, k, env.d);
-            if let Some((pm, pc)) = prev_cost {
+            if let Some((pm, pc)) = *prev_cost {
                 cnt.add("budget_pairs_cost_compared", 1);
                 if c < pc - env.n as f64 * env.num.tie {
                     cnt.add("budget_pairs_cost_strictly_decreased", 1);
@@ -946,13 +959,14 @@ fn run_traj<F: Float, D: Distance<F>>(case: &Case, dist: D, met: Met, viols: &mu
                 if c > pc + slack {
                     viols.push(Violation::new(
                         "kmeans.fit.cost_increased_with_budget",
-                        format!("cost of the returned centroids is {} after budget {} but {} after budget {}", pc, pm, c, m),
+                        format!("n_runs {}: cost of the returned centroids is {} after budget {} but {} after budget {}", n_runs, pc, pm, c, m),
                         env.cj(at.clone()),
                     ));
                 }
             }
-            prev_cost = Some((m, c));
+            *prev_cost = Some((m, c));
         }
+      }
     }
     cnt
 }
@@ -1044,6 +1058,53 @@ fn run_seeded<F: Float, D: Distance<F>>(case: &Case, dist: D, met: Met, viols: &
             }
             Err((sig, what)) => {
                 viols.push(Violation::new(sig, what, env.cj(at)));
+            }
+        }
+    }
+    // budget ladder with restarts (L2): the same seed gives every restart the same start whatever
+    // the budget, each restart's own cost is non-increasing in the budget (m_k-means theorem), the
+    // restart of minimal cost is returned, hence the cost of the returned centroids is
+    // non-increasing in the budget for n_runs > 1 as well.
+    if case.ladder > 0 && met == Met::L2 {
+        let mut rs = vec![2usize, case.max_runs];
+        rs.dedup();
+        for r in rs {
+            let mut prev: Option<(usize, f64)> = None;
+            for m in 1..=case.ladder {
+                cnt.add("fits", 1);
+                cnt.add("seeded_budget_ladder_fits", 1);
+                if nt {
+                    cnt.add("fits_nontrivial", 1);
+                }
+                let at = json!({"budget": m, "n_runs": r, "ladder": true});
+                let rng = TapRng::new(seed_state.clone());
+                match fit_once(&env.data, k, init(), rng, dist.clone(), r, m as u64, case.tol) {
+                    Ok(model) => {
+                        let obs = observe(&model);
+                        if !check_model(&env, &model, &obs, &at, true, None, None, false, &mut pcache, viols, &mut cnt) {
+                            continue;
+                        }
+                        let c = cost(met, &env.pts, &obs.flat, k, env.d);
+                        if let Some((pm, pc)) = prev {
+                            cnt.add("seeded_budget_pairs_cost_compared", 1);
+                            if c < pc - env.n as f64 * env.num.tie {
+                                cnt.add("seeded_budget_pairs_cost_strictly_decreased", 1);
+                            }
+                            if c > pc + env.n as f64 * env.num.tie + 1e-12 * pc {
+                                viols.push(Violation::new(
+                                    "kmeans.fit.cost_increased_with_budget",
+                                    format!(
+                                        "{} seed {} n_runs {}: cost of the returned centroids is {} after budget {} but {} after budget {}",
+                                        case.init_kind, case.seed, r, pc, pm, c, m
+                                    ),
+                                    env.cj(at.clone()),
+                                ));
+                            }
+                        }
+                        prev = Some((m, c));
+                    }
+                    Err((sig, what)) => viols.push(Violation::new(sig, what, env.cj(at))),
+                }
             }
         }
     }
@@ -1164,6 +1225,7 @@ fn main() {
     let budgets = ctx.pick(6, 12);
     let seeds: u64 = ctx.pick(4, 16);
     let max_runs = ctx.pick(3, 4);
+    let ladder = ctx.pick(6, 8); // seeded family: budgets of the restart ladder
     let tols = [1e-4, 1e-2];
     let iter_caps: Vec<u64> = if thorough { vec![1, 2, 3, 300] } else { vec![1, 3, 300] };
 
@@ -1171,16 +1233,16 @@ fn main() {
         "datasets: every multiset of 1..={n1} points of {{0..4}} (1-D, duplicates) and every subset of 1..={n2} points of the 3x3 lattice (2-D), \
          under the affine images id, +1e3 (budgets <= 6 in f32), x1e-3 (f32 and f64) and 1e3+1e-3x (f64 only); 1-D multisets of more than {n1a} points under the identity image only; metrics L2, L1; k = 1..min(n,{k}). \
          trajectory cases = dataset x float x metric x k x Precomputed start (EVERY distinct k-sub-multiset of the data rows + 2 off-data starts, one with a permanently empty cluster) x tolerance {{1e-4,1e-2}}; \
-         per case the real fit runs with max_n_iterations(m), n_runs(1) for every m = 1..={b} and is compared with the set of states the reference m_k-means step reaches after m transitions (ties branch). \
-         seeded cases = dataset (id image; all images for n<=3) x float x metric x k x {{random, kmeans++, kmeans||}} x seed 0..{s} x iteration cap {caps:?}, tolerance 1e-4; per case single-restart fits of restart 1..={r} and fits with n_runs = 2..={r} from the same seed. \
+         per case the real fit runs with max_n_iterations(m) and n_runs(1), n_runs(2), n_runs(3) (same start for every restart, so the same answer is demanded) for every m = 1..={b} and is compared with the set of states the reference m_k-means step reaches after m transitions (ties branch). \
+         seeded cases = dataset (id image; all images for n<=3) x float x metric x k x {{random, kmeans++, kmeans||}} x seed 0..{s} x iteration cap {caps:?}, tolerance 1e-4; per case single-restart fits of restart 1..={r} and fits with n_runs = 2..={r} from the same seed; for L2 and every (dataset, initialiser, seed) additionally fits with n_runs in {{2, {r}}} for every budget 1..={lad}, cost of the returned centroids compared along the budgets. \
          evaluations = fits of the real code; non-trivial = fits with k >= 2 on data with >= 2 distinct rows; every fitted model additionally gets predict (batch, single row) / transform evaluations on its training rows and on the lattice + half-lattice + far query points (first and last fit of a case). \
          states / transitions = distinct reference states (centroid set, stopped flag) per level / reference steps.",
-        n1 = n1_max, n1a = n1_all_images, n2 = n2_max, k = k_max, b = budgets, s = seeds, caps = iter_caps, r = max_runs
+        lad = ladder, n1 = n1_max, n1a = n1_all_images, n2 = n2_max, k = k_max, b = budgets, s = seeds, caps = iter_caps, r = max_runs
     ));
     ctx.assume("reference = plain f64 m_k-means step (nearest centroid under the metric's reduced distance, centroid := mean of assigned points and previous position) on the coordinates as rounded to the subject's float type; stop rule = matrix distance between consecutive centroid sets < tolerance (for L1 either the L1 or the euclidean matrix distance is admitted, rustdoc says euclidean, code uses the metric)");
     ctx.assume("ties: reduced distances closer than tie = 4*diam*e_c + 64*eps*diam^2 (e_c = 2(n+2)*eps*max|coord|, eps = machine epsilon of the float type) are treated as tied; the reference branches over every tie resolution and the implementation may follow any branch; a step whose ties multiply to > 4096 branches (or a level of > 20000 states) switches the trajectory oracle off for the case (counted)");
     ctx.assume("centroid equality with a reference state: max abs coordinate difference <= max(rel*max|coord|, 4 e_c), rel = 1e-9 (f64) / 1e-4 (f32); inertia vs recomputed mean cost: rel + tie absolute; a stop criterion within rel*tol + 2 e_c sqrt(kd) of the tolerance admits both stopping and continuing");
-    ctx.assume("cost monotonicity (L2 only, a theorem for m_k-means): cost(m+1) <= cost(m) + n*tie + 1e-12*cost(m), cost recomputed by the harness from the returned centroids; for L1 only the recurrence is checked");
+    ctx.assume("cost monotonicity (L2 only, a theorem for m_k-means): cost(m+1) <= cost(m) + n*tie + 1e-12*cost(m), cost recomputed by the harness from the returned centroids; for L1 only the recurrence is checked; asserted for n_runs = 1, 2, 3 from a Precomputed start and for n_runs > 1 from seeded starts (same seed => same start of every restart whatever the budget; the minimum over restarts of non-increasing costs is non-increasing)");
     ctx.assume("restart monotonicity is compared exactly (<=) on the reported values; k-means|| draws per-rayon-job generators, every case runs in its own 1-thread rayon pool so results are schedule independent (schedules are C20's subject)");
     ctx.assume("predict: any centroid within 64*eps*(largest reduced distance of the point) of the minimum is accepted; cluster_count must be the histogram of SOME nearest-centroid assignment of the training rows to the returned centroids (tie sets, exact feasibility search)");
     ctx.assume("triage signatures: 'before_last_update' is assigned only when the reported value equals the cost / histogram of a centroid set P with update(P) = returned centroids (P known from the reference trajectory, or solved exactly from P_c = (n_c+1) C_c - S_c over all k^n assignments); 'from_last_restart' only when the counts equal those of a single-restart fit of the last restart started from the read-back generator state");
@@ -1245,6 +1307,7 @@ fn main() {
                                     // against unit spacing): near-ties persist and the reference branches at every
                                     // step, so the budget stays at the quick bound there
                                     budgets: if float == "f32" && img == "off1e3" { budgets.min(6) } else { budgets },
+                                    ladder: 0,
                                     init_kind: String::new(),
                                     seed: 0,
                                     max_runs: 0,
@@ -1274,6 +1337,7 @@ fn main() {
                                             seed,
                                             max_runs,
                                             max_iter: cap,
+                                            ladder: if cap == iter_caps[0] && metric == "L2" { ladder } else { 0 },
                                         });
                                         n_seeded += 1;
                                     }
